@@ -71,7 +71,13 @@ type Decision struct {
 	Reason int8  `json:"r"`
 	Site   int32 `json:"y"`
 	From   int32 `json:"f"`
+	G      int64 `json:"g,omitempty"`  // debugging: goroutine that took the decision
+	Slot   int32 `json:"fs,omitempty"` // debugging: its slot
+	ToSlot int32 `json:"ts,omitempty"`
 }
+
+// DebugGID, when set, is called for every recorded decision (debugging only).
+var DebugGID func() int64
 
 // SchedConfig fully determines a schedule (together with the code).
 type SchedConfig struct {
@@ -584,6 +590,11 @@ func choose(forced bool, reason int8) int32 {
 func record(to int32, reason int8, site int32) {
 	if ndec < len(decisions) {
 		decisions[ndec] = Decision{Step: steps, To: slotTID[to], Reason: reason, Site: site, From: slotTID[curSlot]}
+		if DebugGID != nil {
+			decisions[ndec].G = DebugGID()
+			decisions[ndec].Slot = curSlot
+			decisions[ndec].ToSlot = to
+		}
 		ndec++
 	} else {
 		stats.Truncated = true
@@ -1089,8 +1100,9 @@ func Recv2[T any](ch <-chan T) (T, bool) {
 
 // Close replaces the builtin close: blocked receivers may retry.
 func Close[T any](ch chan<- T) {
+	act := Active()
 	close(ch)
-	if Active() {
+	if act {
 		afterSync(-16)
 	}
 }
@@ -1335,22 +1347,24 @@ func wgShadowAdd(p uintptr, d int64) int64 {
 
 // WGAdd replaces (*sync.WaitGroup).Add.
 func WGAdd(wg *sync.WaitGroup, n int) {
-	if Active() {
+	act := Active() // decided once per operation
+	if act {
 		wgShadowAdd(uintptr(unsafe.Pointer(wg)), int64(n))
 	}
 	wg.Add(n)
-	if n < 0 && Active() {
+	if n < 0 && act {
 		afterSync(-12)
 	}
 }
 
 // WGDone replaces (*sync.WaitGroup).Done.
 func WGDone(wg *sync.WaitGroup) {
-	if Active() {
+	act := Active() // decided once per operation
+	if act {
 		wgShadowAdd(uintptr(unsafe.Pointer(wg)), -1)
 	}
 	wg.Done()
-	if Active() {
+	if act {
 		afterSync(-12)
 	}
 }
@@ -1386,8 +1400,9 @@ func MuLock(mu tryLocker) {
 
 // MuUnlock replaces Unlock.
 func MuUnlock(mu tryLocker) {
+	act := Active()
 	mu.Unlock()
-	if Active() {
+	if act {
 		afterSync(-15)
 	}
 }
@@ -1405,8 +1420,9 @@ func MuRLock(mu *sync.RWMutex) {
 
 // MuRUnlock replaces (*sync.RWMutex).RUnlock.
 func MuRUnlock(mu *sync.RWMutex) {
+	act := Active()
 	mu.RUnlock()
-	if Active() {
+	if act {
 		afterSync(-15)
 	}
 }
